@@ -44,25 +44,40 @@ type wireGen struct {
 
 func (g *wireGen) p(format string, a ...interface{}) { fmt.Fprintf(&g.sb, format+"\n", a...) }
 
-func genWire() string {
-	g := &wireGen{}
+func wireHeader(g *wireGen, ns string) {
 	g.p("-- REGENERATED on every run by /verif/go/cmd/extract from /repo — do not edit.")
 	g.p("-- Integer expressions of the wire codecs, translated from the Go AST with Go's typing")
 	g.p("-- (a shift has the type of its left operand; conversions truncate / zero-extend).")
 	g.p("import TSSVerif.Model.WireBase")
 	g.p("set_option linter.unusedVariables false")
-	g.p("namespace TSSVerif.Gen.Wire")
+	g.p("namespace TSSVerif.Gen.%s", ns)
 	g.p("open TSSVerif.Model")
 	g.p("")
+}
+
+// the acknowledgement codec of the reliable-broadcast layer
+func genWire() string {
+	g := &wireGen{}
+	wireHeader(g, "Wire")
 	th := load("threshold/threshold.go")
 	g.ackEnc(th)
 	g.ackDec(th)
+	g.p("end TSSVerif.Gen.Wire")
+	return g.sb.String()
+}
+
+// the synchroniser's codecs (topic name, view encoding, PRF input): a module of their own, so that a change in one
+// codec does not stop the models of the other from building
+func genWireDisc() string {
+	g := &wireGen{}
+	wireHeader(g, "WireDisc")
+	th := load("threshold/threshold.go")
 	g.topicName(th)
 	di := load("disc/discovery.go")
 	g.viewEnc(di)
 	g.viewDec(di)
 	g.prf(di)
-	g.p("end TSSVerif.Gen.Wire")
+	g.p("end TSSVerif.Gen.WireDisc")
 	return g.sb.String()
 }
 
